@@ -14,20 +14,21 @@ use crate::refcodec::*;
 use crate::shapes::*;
 use dlt_core::parse::{dlt_message, ParsedMessage};
 
-fn same_message(s: &Shape, canon: &[u8], dialect: &[u8]) {
-    let a = dlt_message(canon, None, s.storage);
+/// The canonical encoding parses to the message value described by `bt` (P(shape), C01);
+/// the dialect encoding must parse to the same value (field-wise comparison with `bt`;
+/// a derived `==` on two parsed messages costs thousands of memcmp unwindings).
+fn same_message(s: &Shape, bt: &Built, dialect: &[u8]) {
     let b = dlt_message(dialect, None, s.storage);
-    match (a, b) {
-        (Ok((ra, ParsedMessage::Item(ma))), Ok((rb, ParsedMessage::Item(mb)))) => {
-            assert!(ra.len() == rb.len(), "dialect encoding consumes a different length");
-            assert!(ma == mb, "dialect encoding parses to a different message than its canonical form");
-            kani::cover!(true, "both forms parsed");
-            std::mem::forget(ma);
-            std::mem::forget(mb);
+    match &b {
+        Ok((rb, ParsedMessage::Item(mb))) => {
+            assert!(rb.len() == 1, "dialect encoding consumes a different length");
+            check_headers(mb, s.storage, s.htyp, s.msin, &bt.h, bt.payload_len as u16);
+            check_payload(mb, s, bt);
+            kani::cover!(true, "dialect form parsed to the canonical value");
         }
-        (Ok(_), Ok(_)) => assert!(false),
-        _ => assert!(false, "dialect or canonical encoding rejected"),
+        _ => assert!(false, "dialect encoding rejected"),
     }
+    std::mem::forget(b);
 }
 
 macro_rules! c16_harness {
@@ -43,7 +44,7 @@ macro_rules! c16_harness {
             let $ti = bt.msg_start + headers_len(s.htyp);
             let $big = s.htyp & HTYP_MSBF != 0;
             $patch;
-            same_message(&s, bt.buf.slice(), $d.slice());
+            same_message(&s, &bt, $d.slice());
         }
     };
 }
